@@ -14,6 +14,7 @@ let held_of_string s =
   | ["f32"; nm; b] -> HF32 (nm = "1", z_of_string b)
   | ["f64"; nm; b] -> HF64 (nm = "1", z_of_string b)
   | ["str"; nm; h] -> HStr (nm = "1", bytes_of_hex h)
+  | ["bytes"; nm; "nil"] -> HBytes (nm = "1", [])   (* typed nil slice: contents empty; nil-ness is not an observable *)
   | ["bytes"; nm; h] -> HBytes (nm = "1", bytes_of_hex h)
   | ["bool"; nm; b] -> HBool (nm = "1", b = "1")
   | ["sliceother"] -> HSliceOther
